@@ -36,7 +36,7 @@ def run(ctx, out):
                 "fresh and pre-existing destinations (other mode/owner/xattrs), both drivers, multi-block files with 4 workers "
                 "under random thread holds; plus trees of 8 files in which ONE best-effort xattr call is refused: every other file "
                 "keeps its exact metadata; plus copies made by a NON-root process that may change owners (setpriv: uid 4242 with ambient "
-                "CAP_CHOWN/FOWNER/FSETID/DAC_OVERRIDE), with and without --ownership; non-trivial = mode with a set-id/sticky bit, or xattrs, or non-root ids, or a flag; "
+                "CAP_CHOWN/FOWNER/FSETID/DAC_OVERRIDE), with and without --ownership, and by an unprivileged owner (uid 65534, no capabilities) of set-id files; non-trivial = mode with a set-id/sticky bit, or xattrs, or non-root ids, or a flag; "
                 "distinct = distinct case tuple")
     modes = MODES_CORE if quick else list(range(0, 0o10000))
     cases = []
@@ -275,6 +275,45 @@ def run(ctx, out):
                                           % ("--ownership" if own else "no --ownership", ids, (st.st_uid, st.st_gid)), rep)
                         elif st.st_mode & 0o7777 != mode:
                             out.violation("mode %o copied as %o by a non-root process that may change owners" % (mode, st.st_mode & 0o7777), rep)
+                    shutil.rmtree(d, ignore_errors=True)
+    # ---- ... and a caller with NO capability at all (uid 65534) copying its own files: the kernel strips set-id bits on every
+    #      write by such a caller, so whatever mode is applied before the last write does not survive — the final mode does
+    NOBODY = ["setpriv", "--reuid", "65534", "--regid", "65534", "--clear-groups", "--inh-caps=-all", "--"]
+    can2 = shutil.which("setpriv") and os.geteuid() == 0 and subprocess.run(NOBODY + ["true"], capture_output=True).returncode == 0
+    if not can2:
+        out.count("unprivileged_runs_skipped")
+    else:
+        k = 0
+        for driver in ("parfile", "parblock"):
+            for mode in (0o4755, 0o2755, 0o6711, 0o640, 0o1644):
+                for prior in ((False,) if quick else (False, True)):
+                    k += 1
+                    d = os.path.join(d0, "nob%d" % k)
+                    os.makedirs(d)
+                    os.chmod(d, 0o777)
+                    src, dst = os.path.join(d, "s"), os.path.join(d, "t")
+                    size = rng.choice([5000, 70000, 300000])
+                    fsutil.make_file(src, size, [(0, size)], tag=k, sync=False)
+                    os.chown(src, 65534, 65534)
+                    os.chmod(src, mode)
+                    os.utime(src, ns=(10 ** 18, 10 ** 18 + 7))
+                    if prior:
+                        open(dst, "wb").write(b"old")
+                        os.chown(dst, 65534, 65534)
+                    argv = NOBODY + [ctx.bins["xcp"], "--driver", driver, "-w", "2", "--block-size", str(rng.choice([65536, 1 << 20])), "--reflink", "never", src, dst]
+                    r = xcp.run_plain(argv, d)
+                    out.case(("unprivileged", driver, mode, prior), True)
+                    out.count("unprivileged_runs")
+                    rep = dict(kind="copy by uid 65534 without capabilities of a file it owns", argv=argv, source_mode=oct(mode), exit=r.exit, stderr=r.stderr[-300:])
+                    if r.exit != 0:
+                        out.violation("plain copy by an unprivileged owner failed: exit %d" % r.exit, rep)
+                    else:
+                        st = os.stat(dst)
+                        if st.st_mode & 0o7777 != mode:
+                            out.violation("mode %o copied as %o by an unprivileged owner (set-id bits do not survive a write made after them)"
+                                          % (mode, st.st_mode & 0o7777), rep)
+                        elif st.st_mtime_ns != 10 ** 18 + 7:
+                            out.violation("mtime not carried over by an unprivileged owner", rep)
                     shutil.rmtree(d, ignore_errors=True)
     if ctx.model_ok and minputs:
         res = core.run_model("run_finalise", minputs, shard=40, tag="c10")
